@@ -85,7 +85,8 @@ def gen_case(rng: random.Random, tier: str) -> dict:
         rsel = rng.sample(outs, rng.randint(1, min(3, len(outs))))
     if isinstance(rsel, list) and rng.random() < 0.2 and g["ext"]:
         rsel = rsel + [rng.choice(g["ext"])]  # a plain INPUT name in the selection: rejected, or at least never returned
-    rsel_tuple = rng.choice([True, "set", "frozenset"]) if (isinstance(rsel, list) and rng.random() < 0.4) else False  # the selection is given as a tuple / set / frozenset instead of a list
+    rsel_has_input = isinstance(rsel, list) and any(n_ in g["ext"] for n_ in rsel)
+    rsel_tuple = rng.choice([True, "set", "frozenset"] + ([] if rsel_has_input else ["generator"])) if (isinstance(rsel, list) and rng.random() < 0.4) else False  # the selection is given as a tuple / set / frozenset instead of a list
     fns = gen.fn_nodes(g)
     fault = None
     if fns and rng.random() < 0.3:
@@ -259,6 +260,14 @@ def run_case(doc: dict) -> dict:
         if doc.get("rsel") is not None:
             conv = {True: tuple, "set": set, "frozenset": frozenset}.get(doc.get("rsel_tuple"))
             kw["select"] = conv(doc["rsel"]) if (conv and isinstance(doc["rsel"], list)) else doc["rsel"]
+
+        def kw_now(**extra):
+            # (a one-shot iterator serves ONE call: every call of the history gets a fresh one)
+            k2 = dict(kw, **extra)
+            if doc.get("rsel_tuple") == "generator" and isinstance(doc.get("rsel"), list):
+                k2["select"] = (n_ for n_ in doc["rsel"])
+            return k2
+
         faults = [doc["fault"]] if doc.get("fault") else []
         modes = (["async"] if doc.get("interrupt") else ["sync", "async"])
         for mode in modes:
@@ -269,7 +278,7 @@ def run_case(doc: dict) -> dict:
                 try:
                     wall = run_world(gs, values, mode=mode, cfg=doc["cfg"], faults=copy.deepcopy(faults), run_kwargs={"select": "**", "error_handling": "continue"}, cache=cache, derive=derive, warm_values=wref["values"])
                     pbox: dict = {}
-                    w = run_world(gs, values, mode=mode, cfg=doc["cfg"], faults=copy.deepcopy(faults), run_kwargs=dict(kw), cache=cache, processors_factory=lambda rt, b=pbox: b.setdefault("p", [SyncProc(rt, "rec")]), derive=derive, warm_values=wref["values"])
+                    w = run_world(gs, values, mode=mode, cfg=doc["cfg"], faults=copy.deepcopy(faults), run_kwargs=kw_now(), cache=cache, processors_factory=lambda rt, b=pbox: b.setdefault("p", [SyncProc(rt, "rec")]), derive=derive, warm_values=wref["values"])
                 except BuildError:
                     res["discard"] = "configured_graph_rejected"
                     return res
@@ -389,7 +398,7 @@ def run_case(doc: dict) -> dict:
                         mname = names[0]
                         mvals = dict(w["values"])
                         mvals[mname] = [mvals[mname]]
-                        wm = run_world(gs, mvals, mode=mode, cfg=doc["cfg"], run_kwargs=dict(kw, map_over=mname), op="map", cache=cache, derive=derive, warm_values=wref["values"])
+                        wm = run_world(gs, mvals, mode=mode, cfg=doc["cfg"], run_kwargs=kw_now(map_over=mname), op="map", cache=cache, derive=derive, warm_values=wref["values"])
                         rts.append(wm["rt"])
                         res["runs"] += 1
                         om = wm["out"]
